@@ -216,6 +216,16 @@ theorem get_slicing_selection_terminates (indices : Array Nat) (rows : List (Nat
   unfold Loops.slicingSelection
   exact Loops.go_fuel _ _ _ _ _ _ _
 
+/-- **get_slicing_selection_memory_safe.** Under the guard the caller establishes (`pos_slice`: the requested columns are
+strictly ascending — positive-step slices, `is_sorted` index arrays) no iteration reads outside `current_row`/`col`
+(`current_row[size]`, `current_row[-1]`, `col[col_count]`, `current_row[s]`), for every row content and any step budget:
+the logical content of memory safety for this `nopython` kernel, which numba does not bounds-check. -/
+theorem get_slicing_selection_memory_safe (fuel : Option Nat) (indices : Array Nat) (rows : List (Nat × Nat)) (col : Array Nat)
+    (hcol : col.toList.Pairwise (· < ·)) :
+    Loops.slicingSelection fuel indices rows col ≠ .oob := by
+  unfold Loops.slicingSelection
+  exact Loops.go_no_oob _ _ _ hcol _ _ _ _ _
+
 /-- the budget matters: one step is not enough for a row that needs two -/
 example : Loops.slicingSelection (some 1) #[1, 2] [(0, 2)] #[1, 2, 3] = .outOfFuel := by decide
 /-- a concrete run: rows `[1,2]`, `[5,7]`; columns `2,5,6,7,8` -/
